@@ -12,7 +12,7 @@ ID = "C20"
 LEVEL = "exploration"
 SHARDS = {"quick": 4, "thorough": 12}
 TIMEOUT = {"quick": 400, "thorough": 3400}
-DECIDING = ["messages_compared", "hash_seeds", "value_lines_checked", "filtered_argument_checks"]
+DECIDING = ["messages_compared", "hash_seeds", "value_lines_checked", "filtered_argument_checks", "default_limit_comparisons"]
 RULE = (
     "violated conditions from the C06 grammar (plus templates naming _ARGS/_KWARGS and all(...) over long strings), given as lambdas or "
     "(30%) as named functions, as preconditions or (30%) postconditions, on functions that "
@@ -23,7 +23,8 @@ RULE = (
     "violations, (b) raised with up to 24 permutations of its keyword arguments, (c) re-run in subprocesses with PYTHONHASHSEED in "
     "{0, 1, 4242, random}. Monitors: all messages of a case are byte-identical within and across processes; value entries are "
     "sorted by expression text; every rendered value (and every line of an all() example) equals a result the contract's own "
-    "a_repr returned in that call; no entry is keyed by an argument that is a class, function, method, module or builtin, nor by "
+    "a_repr returned in that call; with the default a_repr every listed argument (incl. deque and array.array values sized around "
+    "the limits) equals what an independently configured reprlib.Repr with the documented limits (50 items / 256 characters) gives; no entry is keyed by an argument that is a class, function, method, module or builtin, nor by "
     "_ARGS/_KWARGS unless the condition names them. Non-trivial = case with a message; distinct = condition text."
 )
 ASSUMPTIONS = ["values whose own repr embeds a memory address or iterates a set are not generated"]
@@ -31,6 +32,8 @@ ASSUMPTIONS = ["values whose own repr embeds a memory address or iterates a set 
 _ADDR = __import__("re").compile(r"0x[0-9a-fA-F]+")
 
 HEADER = '''
+import array
+import collections
 import os
 import reprlib
 import icontract
@@ -73,7 +76,7 @@ def unrelated(q):
 
 '''
 
-EXTRA_PARAMS = ["ss", "fs", "big", "cls_arg", "fn_arg", "meth_arg", "mod_arg", "builtin_arg"]
+EXTRA_PARAMS = ["ss", "fs", "big", "dq", "arr", "cls_arg", "fn_arg", "meth_arg", "mod_arg", "builtin_arg"]
 EXTRA_VALUES = {
     "cls_arg": "int", "fn_arg": "unrelated", "meth_arg": "HOLDER.method", "mod_arg": "os", "builtin_arg": "len",
 }
@@ -99,7 +102,10 @@ def sized_values(rng) -> Dict[str, str]:
     length = rng.choice([5, 23, 24, 25, 250, 255, 256, 257, 260, 400])
     big_items = [repr("x" * length), repr("y" * rng.choice([1, 24, 30])), repr("long-" + "z" * rng.choice([10, 300]))]
     big = "[" + ", ".join(big_items[: rng.randint(1, 3)] + [repr(w) for w in rng.sample(words, rng.randint(0, 6))]) + "]"
-    out = {"ss": ss, "fs": fs, "big": big}
+    # containers with a limit of their own in reprlib (deque, array), sized around the default limit of 50 and reprlib's own 6 / 5
+    dq = "collections.deque(range({}))".format(rng.choice([0, 5, 6, 7, 20, 49, 50, 51, 80]))
+    arr = "array.array('i', range({}))".format(rng.choice([0, 4, 5, 6, 20, 50, 51]))
+    out = {"ss": ss, "fs": fs, "big": big, "dq": dq, "arr": arr}
     out.update(EXTRA_VALUES)
     return out
 
@@ -189,7 +195,7 @@ def run(w) -> None:
                 except Exception:  # pylint: disable=broad-except
                     continue
             if found is not None:
-                calls.append({"name": it["name"], "kwargs": found})
+                calls.append({"name": it["name"], "kwargs": found, "custom_repr": it["custom_repr"]})
     finally:
         loaded.unload()
     calls_path = os.path.join(scratch, "calls_{}.json".format(w.shard))
@@ -249,6 +255,10 @@ def run(w) -> None:
         w.case(it["expr"])
         data = ref[2]
         parts = data["parts"]
+        w.count("default_limit_comparisons", data.get("default_limit_comparisons", 0))
+        for bad in data.get("default_limit_mismatches", []):
+            w.violation("C20/default-limits-not-applied", "argument {} is rendered as {!r}; with the documented default limits (50 items, 256 "
+                        "characters) it is {!r}".format(bad[0], bad[1][:100], bad[2][:100]), case, {"parts": parts})
         candidates = []
         try:
             tw = exprs.Twin(it["expr"], [], [])
